@@ -417,7 +417,7 @@ def real_cli_run(gen, text):
         shutil.rmtree(src, ignore_errors=True)
 
 
-def real_plugin_run(gen, text, expect_ok, warmup=False):
+def real_plugin_run(gen, text, expect_ok, warmup=False, warmup_text=None):
     """In a subprocess-free but unstubbed way: fresh import state is not needed because nothing is stubbed here."""
     import subprocess
     code = (
@@ -427,15 +427,19 @@ def real_plugin_run(gen, text, expect_ok, warmup=False):
         "from fcp.error import Logger\n"
         "from fcp.codegen import GeneratorManager\n"
         "from fcp.verifier import make_general_verifier\n"
-        "if %r:\n"
+        "for wtext in %r:\n"
         "    import tempfile, shutil\n"
         "    w = tempfile.mkdtemp(prefix='verif_warm_')\n"
-        "    GeneratorManager(make_general_verifier()).generate(%r, None, None, get_fcp_from_string(%r, Logger({})).unwrap(), w)\n"
+        "    try:\n"
+        "        GeneratorManager(make_general_verifier()).generate(%r, None, None, get_fcp_from_string(wtext, Logger({})).unwrap(), w)\n"
+        "    except BaseException:\n"
+        "        pass\n"
         "    shutil.rmtree(w, ignore_errors=True)\n"
         "fcp = get_fcp_from_string(%r, Logger({})).unwrap()\n"
         "r = GeneratorManager(make_general_verifier()).generate(%r, None, None, fcp, sys.argv[1])\n"
         "print(json.dumps({'ok': bool(getattr(r, 'is_ok', lambda: False)()), 'err': bool(getattr(r, 'is_err', lambda: False)())}))\n"
-    ) % ([p for p in sys.path if "/plugins/" in p or p.endswith("/src")], bool(warmup), gen, WARMUP, text, gen)
+    ) % ([p for p in sys.path if "/plugins/" in p or p.endswith("/src")],
+         ([WARMUP] + ([warmup_text] if warmup_text else [])) if warmup else [], gen, text, gen)
     d = tempfile.mkdtemp(prefix="verif_c10_")
     try:
         open(os.path.join(d, "keep.txt"), "w").write("pre-existing")
